@@ -888,6 +888,10 @@ class PolyhedralTermList(TermList):  # noqa: WPS338
         elif res["status"] == 0:
             fun_val: float = res["fun"]
             return polarity * fun_val
+        elif res["status"] == 2 and not self.is_empty():
+            # the solver's presolve reports "infeasible or unbounded" with status 2: if the constraints are
+            # satisfiable, the objective is unbounded
+            return None
         raise ValueError("Constraints are unfeasible")
 
     @staticmethod
